@@ -100,16 +100,12 @@ func (rt *runtime) newBoundFunctionObject(target *object, this Value, argumentLi
 
 // [[Construct]].
 func (fn bindFunctionObject) construct(argumentList []Value) Value {
-	obj := fn.target
-	switch value := obj.value.(type) {
-	case nativeFunctionObject:
-		return value.construct(obj, fn.argumentList)
-	case nodeFunctionObject:
-		argumentList = append(fn.argumentList, argumentList...)
-		return obj.construct(argumentList)
-	default:
-		panic(fn.target.runtime.panicTypeError("construct unknown type %T", obj.value))
-	}
+	// 15.3.4.5.2: [[Construct]] of the target with the bound arguments followed by
+	// the call's arguments, whatever kind of function the target is.
+	args := make([]Value, 0, len(fn.argumentList)+len(argumentList))
+	args = append(args, fn.argumentList...)
+	args = append(args, argumentList...)
+	return fn.target.construct(args)
 }
 
 // nodeFunctionObject.
